@@ -60,8 +60,9 @@ def _common_config(rng, profile):
     if profile == 'stale' and rng.random() < 0.08:
         # distinct files whose names are near-aliases of each other: Unicode normalisation forms
         # (legal and distinct on Linux), letter case, a trailing blank
-        files = list(rng.choice([('src/caf\u00e9.py', 'src/cafe\u0301.py'), ('src/Mod.py', 'src/mod.py'),
-                                 ('src/mod.py', 'src/mod.py '), ('src/\u212b.py', 'src/\u00c5.py')])) + files[:1]
+        pair = rng.choice([('src/caf\u00e9.py', 'src/cafe\u0301.py'), ('src/Mod.py', 'src/mod.py'),
+                           ('src/mod.py', 'src/mod.py '), ('src/\u212b.py', 'src/\u00c5.py')])
+        files = list(pair) + [f for f in files if f not in pair][:1]
     elif profile == 'stale' and rng.random() < 0.12:
         # path aliasing: a `..` path through a symlinked directory next to its lexical twin
         files = [f for f in files if f not in ('src/a/mod.py', 'src/mod.py')][:2] + ['src/link/../mod.py', 'src/mod.py']
